@@ -95,6 +95,13 @@ class FalsyFactoryError(FactoryError):
         return 0
 
 
+class BaseFactoryError(BaseException):
+    """An exception produced by an instrumented error factory that derives from BaseException only (like SystemExit)."""
+
+
+FACTORY_ERRORS = (FactoryError, BaseFactoryError)
+
+
 class BodyError(Exception):
     """Exception raised by an instrumented body."""
 
@@ -210,7 +217,8 @@ class Hub:
         spec = self.truth.get("error:" + id_)
         if spec == "nonexc":
             return "not an exception"
-        err = (FalsyFactoryError if sum(map(ord, id_)) % 3 == 0 else FactoryError)(id_)
+        code = sum(map(ord, id_))
+        err = (BaseFactoryError if code % 5 == 2 else FalsyFactoryError if code % 3 == 0 else FactoryError)(id_)
         self.factory_made.setdefault(id_, []).append(err)
         return err
 
